@@ -386,6 +386,9 @@ class Sym(Interp):
             elt = T(self.ev(n.elt, e, ctx))
         return ("comp", kind, elt, tuple(gens))
 
+    def h_star_element(self, v, n, env, ctx):
+        return ("*", T(v))
+
     def h_fstring(self, vals, n, ctx):
         return ("fstring", tuple(T(v) for v in vals))
 
